@@ -18,13 +18,13 @@ CFG = {
     "pre": _pre,
     "profiles": ["dev", "release"], "workers": 8,
     "technique": "syscall fault enumeration over generated API scenarios with a descriptor-table differential oracle (/proc/self/fd before / after / after drop) and a close-log check",
-    "rule": ("44 scenarios over the public descriptor-creating API (File/OpenOptions flag mixes, fs::read/read_to_string/write/copy_file, Directory open+iterate, "
+    "rule": ("43 scenarios over the public descriptor-creating API (File/OpenOptions flag mixes, fs::read/read_to_string/write/copy_file, Directory open+iterate, "
              "DirEntry::open_file/open_dir, remove_dir_all, create_dir_all, UnixStream connect/try_connect, UnixListener bind/accept/try_accept/accept_with_timeout, "
              "TcpStream connect/try_connect/connect_with_timeout + TcpStreamInProgress, TcpListener bind/accept variants, Command::spawn for stdio mode mixes + wait, "
              "EpollDriver, getpwuid_r, openpty, system_random, setup_io_uring+drop, pipe/pipe2, host_name; invalid arguments: over-long and non-ASCII socket paths, "
              "missing files, missing binary). A dry run records each scenario's syscall sequence; then EVERY index j of it is forced to fail (without executing) with "
              "plausible errnos of that call (quick: first two, thorough: all); spawn scenarios additionally get child-side faults (dup3 x3, chdir, execve) inherited "
-             "through fork. close/munmap are never made to fail. Oracle: descriptors open after the call minus before == those owned by the returned value; after "
+             "through fork. close/munmap are never made to fail WITHOUT executing (that would manufacture a leak); instead every close - including those issued when the returned value is dropped - is executed and then answered EINTR/EIO, as Linux may do after releasing the number: the operation must not close that number again. Oracle: descriptors open after the call minus before == those owned by the returned value; after "
              "dropping it the table is identical to before (numbers and device/inode identities); no close of a pre-existing descriptor, no close returning EBADF. "
              "Non-trivial = fault at index j >= 1 (something was already opened) or a child-side fault; distinct by (scenario, j, errno)."),
     "assumptions": ["one worker thread per process, every descriptor the harness keeps is opened before the snapshot",
